@@ -151,7 +151,8 @@ class C09:
     impl_script = 'impl_mode.py'
     rule = ("every combination of quantifier (an, the) x condition kind (plain comparison, @predicate function, Predicate subclass, rule "
             "inference constructing instances) x dataset (0, 1, 2, 3 qualifying objects), each evaluated under ambient mode none / query / "
-            "rule on fresh objects; the three outcomes (rows by object index, inferred instances by field identity, or the exception class) "
+            "rule on fresh objects, and (an / infer) with the results of ONE evaluation drawn partly outside and partly inside a block, in "
+            "both orders; the five outcomes (rows by object index, inferred instances by field identity, or the exception class) "
             "must coincide; non-trivial = at least one row or a MultipleSolutionFound outcome")
     explanation = ("C09_ambient is proved from the bracketing flags the translator reads from An.evaluate / The.evaluate on every run; tie = "
                    "the model predicts 'same as with no ambient mode', compared with the three observed outcomes")
@@ -166,8 +167,11 @@ class C09:
 
     def to_coq(self, n, case):
         q = 'mode_during_the' if case['quant'] == 'the' else 'mode_during_an'
+        # none / query / rule ambient mode, and one evaluation whose results are drawn partly outside and partly inside a block
+        # (every advance sees the mode the model gives for the ambient mode at that advance)
+        both = f'show_mode ({q} None) ++ "+" ++ show_mode ({q} (Some MQuery))'
         return (f'Eval vm_compute in ("CASE {n} M " ++ String.concat " " (map (fun a => show_mode ({q} a)) [None; Some MQuery; Some MRule])'
-                f' ++ " S N N N").')
+                f' ++ " " ++ {both} ++ " " ++ {both} ++ " S N N N N N").')
 
     def split(self, s):
         m = re.match(r'M (.*?) S (.*)$', s)
@@ -177,11 +181,11 @@ class C09:
         # the model says which mode evaluation sees under each ambient mode; the implementation shows it through outcomes:
         # equal to the outcome under no ambient mode <=> evaluation saw no mode
         base = io.get('none')
-        seen = ['N' if io.get(a) == base else 'ambient' for a in ('none', 'query', 'rule')]
+        seen = ['N' if io.get(a) == base else 'ambient' for a in ('none', 'query', 'rule', 'split_oi', 'split_io')]
         return seen, seen
 
     def tie_view(self, case, mo):
-        return ['N' if m == 'N' else 'ambient' for m in mo]
+        return ['N' if m in ('N', 'N+N') else 'ambient' for m in mo]
 
     def prop_view(self, case, so):
         return so
